@@ -21,6 +21,7 @@ func C07(c *Ctx) {
 		"(R3) message processing is all-or-nothing around reconstruction: no durable effect lies between the FSM event and the reconstruction, and the final SaveFSM is reached on the collected path only past successful reconstruction and broadcast; " +
 		"(R4) the signing deadline cannot silently disable a round: if the callbacks advance the signing payload's UpdatedAt, every proposal must renew its ExpiresAt; " +
 		"(R5) event_signing_start replaces the signing quorum by a freshly made map on every accepting path and fills it only with freshly allocated entries, so partial signatures and statuses of a finished batch cannot leak into the next one. " +
+		"(R6) a received reconstruction is stored whatever state the round is in when it arrives: neither the branch of processMessage that handles signature_reconstructed nor processSignature tests the round's FSM instance, dump or the clock, every decoded entry is handed to SaveSignatures, and no success return bypasses the save (a reconstruction that arrives after the next proposal — the normal case for a lagging node — must still be kept). " +
 		"NOT decided: that reconstruction succeeds for every delivery order (tbls.Recover aborts on the first invalid share — recorded as an observation), polling, eventual delivery."
 	r.Trusted = []string{"go/ssa", "FSM engine model (C05/E)"}
 	r.Rule("C07/R1", "restart provenance: the saved dump is the restart's dump; restart only after reconstruction+broadcast succeeded", 3)
@@ -28,6 +29,8 @@ func C07(c *Ctx) {
 	r.Rule("C07/R3", "all-or-nothing around reconstruction", 2)
 	r.Rule("C07/R4", "signing deadline is renewed per batch if it is live", 1)
 	r.Rule("C07/R5", "every proposal starts from a fresh quorum: nothing recorded for the previous batch (status, partial signatures) survives into the next", 2)
+	r.Rule("C07/R6", "a received reconstruction is stored independently of the round's current state", 3)
+	c07StoreIndependent(c)
 	ms := c.Machines("C07/A1")
 	fn := c.Fn("C07/R1", pkgNode, "BaseNodeService", "processMessage")
 	if fn == nil || len(ms) != 3 {
@@ -225,4 +228,113 @@ func c07FreshQuorum(c *Ctx, m *fsmx.Machine) {
 	r.Check(len(stores) > 0 && bypass == "", "C07/R5", "signing_proposal_fsm:"+evSigningStart+":fresh-quorum", "an accepted proposal replaces the quorum by a freshly made map", c.Pos(cb.Pos()),
 		sprintf("%d stores of a new map; an accepting return at %s is reachable without one: entries of the previous batch (their partial signatures) stay in the quorum and are handed to reconstruction with the new batch", len(stores), bypass))
 	r.Check(fresh, "C07/R5", "signing_proposal_fsm:"+evSigningStart+":fresh-entries", "the quorum of a new batch is filled with freshly allocated entries only", c.Pos(cb.Pos()), detail)
+}
+
+
+// c07StoreIndependent (R6): signatures are stored on a node only through `signature_reconstructed` board messages
+// (including the node's own). Such a message may arrive in any state of the round — after the next proposal, after a
+// restart, for a lagging node long after the batch — so keeping it must not depend on the round's current state.
+func c07StoreIndependent(c *Ctx) {
+	r := c.R
+	ps := c.Fn("C07/R6", pkgNode, "BaseNodeService", "processSignature")
+	pm := c.Fn("C07/R6", pkgNode, "BaseNodeService", "processMessage")
+	if ps == nil || pm == nil {
+		return
+	}
+	stateTyped := func(v ssa.Value) bool {
+		t := v.Type().String()
+		return strings.Contains(t, "state_machines.FSMInstance") || strings.Contains(t, "state_machines.FSMDump") || strings.Contains(t, "DumpedMachineStatePayload") || strings.Contains(t, "SigningConfirmation")
+	}
+	clock := func(v ssa.Value) bool {
+		if call, ok := v.(*ssa.Call); ok {
+			id := ssax.FuncID(ssax.CalleeObj(call))
+			return id == "time.Now" || id == "time.Since"
+		}
+		return false
+	}
+	dep := func(v ssa.Value) bool {
+		// (the outcome of a lookup or of the signature verification — an error value — is not the round's state)
+		if v != nil && v.Type().String() == "error" {
+			return false
+		}
+		return v != nil && derivesFrom(v, func(x ssa.Value) bool { return stateTyped(x) || clock(x) }, 0, map[ssa.Value]bool{})
+	}
+	// (a) no branch of processSignature tests the round's state or the clock
+	bad := ""
+	for _, cd := range ssax.Conds(ps) {
+		if dep(cd.X) || dep(cd.Y) {
+			bad = c.PosOf(cd.If)
+		}
+	}
+	r.Check(bad == "", "C07/R6", "node.processSignature:state-independent", "whether a received reconstruction is kept does not depend on the round's FSM state or the clock", c.Pos(ps.Pos()),
+		"the branch at "+bad+" tests a value derived from the round's FSM instance/dump (or the clock): a reconstruction that arrives after the round has moved on — e.g. behind the next proposal — is dropped, and no node may ever store that batch")
+	// (b) every decoded entry goes to SaveSignatures and no success return bypasses it
+	saves := ssax.Calls(ps, false, func(ci ssa.CallInstruction) bool {
+		o := ssax.CalleeObj(ci)
+		return o != nil && o.Name() == "SaveSignatures"
+	})
+	ok := len(saves) == 1
+	detail := sprintf("%d SaveSignatures calls", len(saves))
+	if ok {
+		a := saves[0].Common().Args
+		if p := npath(a[len(a)-1]); !strings.HasPrefix(p, "json(message.Data)") {
+			ok, detail = false, "what is saved is "+p+", not the decoded list itself (a filtered or rebuilt copy can leave entries out)"
+		}
+		for _, ret := range ssax.Returns(ps) {
+			for _, lf := range ssax.Leaves(ret.Results[len(ret.Results)-1], ret) {
+				if ssax.IsNilConst(lf.V) && ssax.ReachableAvoiding(ps, lf.At, nil, []ssa.Instruction{saves[0].(ssa.Instruction)}) {
+					ok, detail = false, "a nil return at "+c.PosOf(ret)+" is reachable without SaveSignatures"
+				}
+			}
+		}
+	}
+	r.Check(ok, "C07/R6", "node.processSignature:saves-all", "every decoded reconstruction entry is handed to SaveSignatures; success is returned only past the save", c.Pos(ps.Pos()), detail)
+	// (c) the call in processMessage is not guarded by the round's state
+	calls := ssax.CallsTo(pm, load.Module+"/"+pkgNode+".(BaseNodeService).processSignature")
+	okc := len(calls) == 1
+	detailc := sprintf("%d processSignature calls in processMessage", len(calls))
+	if okc {
+		for _, cd := range ssax.Conds(pm) {
+			if !(dep(cd.X) || dep(cd.Y)) {
+				continue
+			}
+			for _, succ := range []int{0, 1} {
+				e := ssax.Edge{From: cd.If.Block(), Succ: succ}
+				if !ssax.ReachableAvoiding(pm, calls[0].(ssa.Instruction), []ssax.Edge{e}, nil) {
+					okc, detailc = false, "processSignature is reached only over one edge of the state test at "+c.PosOf(cd.If)
+				}
+			}
+		}
+	}
+	r.Check(okc, "C07/R6", "node.processMessage:signature-branch-unguarded", "the handling of signature_reconstructed is not conditional on the round's FSM state", c.Pos(pm.Pos()), detailc)
+}
+
+// derivesFrom: v is computed (through loads, field/index addressing, conversions, calls' receivers and arguments, phis
+// and local variables) from a value satisfying pred. Bounded backward walk within one function.
+func derivesFrom(v ssa.Value, pred func(ssa.Value) bool, depth int, seen map[ssa.Value]bool) bool {
+	if v == nil || seen[v] || depth > 12 {
+		return false
+	}
+	seen[v] = true
+	if pred(v) {
+		return true
+	}
+	if al, ok := v.(*ssa.Alloc); ok && al.Referrers() != nil {
+		for _, ref := range *al.Referrers() {
+			if st, ok := ref.(*ssa.Store); ok && st.Addr == ssa.Value(al) && derivesFrom(st.Val, pred, depth+1, seen) {
+				return true
+			}
+		}
+		return false
+	}
+	in, ok := v.(ssa.Instruction)
+	if !ok {
+		return false
+	}
+	for _, op := range in.Operands(nil) {
+		if op != nil && *op != nil && derivesFrom(*op, pred, depth+1, seen) {
+			return true
+		}
+	}
+	return false
 }
